@@ -29,7 +29,7 @@ RecordClauses(e) ==
 (* ig.coo: pre-binned pixel records <<bin1, bin2, v>> *)
 CooClauses(e) ==
   LET n == Len(e.case.table)
-      rej == PxRejected(n, e.case.px, e.case.one_based)
+      rej == PxRejected(n, e.case.px, e.case.one_based, e.case.tril)
   IN
   IF rej THEN << <<"outOfRangeRejected", e.obs.err # "">> >>
   ELSE
